@@ -571,7 +571,7 @@ fn post_check<F: Family>(env: &Env<F>, par: bool, t: usize, mark: usize, op: &Op
         }
         let e = exp.deltas.iter().find(|x| x.0 == *block).map(|x| x.1).unwrap_or(0);
         if *d != e {
-            violation(
+            triomphe_verif_rt::count_violation(
                 "count-drift",
                 format!("`{}` changed the reference count of block b{} by {} (specified {})", what, block, d, e),
             );
@@ -582,14 +582,14 @@ fn post_check<F: Family>(env: &Env<F>, par: bool, t: usize, mark: usize, op: &Op
             continue;
         }
         if *e != 0 && !at.deltas.iter().any(|x| x.0 == *block) {
-            violation(
+            triomphe_verif_rt::count_violation(
                 "count-drift",
                 format!("`{}` did not change the reference count of block b{} (specified {})", what, block, e),
             );
         }
     }
     if exp.no_rmw && at.rmws != 0 {
-        violation(
+        triomphe_verif_rt::count_violation(
             "count-touched",
             format!("`{}` is count-neutral but performed {} read-modify-write(s) on a reference count", what, at.rmws),
         );
@@ -633,7 +633,7 @@ pub fn check_slot<F: Family>(s: &Slot<F>, env: &Env<F>, counts: bool, op: &Op, g
         let _ = s.h.view(false, true);
         let c1 = sim::peek(a.ptr);
         if c0 != c1 {
-            violation(
+            triomphe_verif_rt::count_violation(
                 "count-touched",
                 format!("{}: reading the handle's pointer and count accessors changed the reference count word from {} to {}", what(), c0, c1),
             );
@@ -805,7 +805,7 @@ pub fn check_slot<F: Family>(s: &Slot<F>, env: &Env<F>, counts: bool, op: &Op, g
     }
     for (n, c) in &v.counts {
         if *c as i64 != a.owners as i64 {
-            violation(
+            triomphe_verif_rt::count_violation(
                 "count-mismatch",
                 format!("{}: {} reports {} but {} owning handle(s) exist", what(), n, c, a.owners),
             );
@@ -827,7 +827,7 @@ pub fn check_slot<F: Family>(s: &Slot<F>, env: &Env<F>, counts: bool, op: &Op, g
     if counts && v.counts.is_empty() {
         let c = sim::peek(a.ptr);
         if c as i64 != a.owners as i64 {
-            violation(
+            triomphe_verif_rt::count_violation(
                 "count-mismatch",
                 format!("{}: the reference count word holds {} but {} owning handle(s) exist", what(), c, a.owners),
             );
